@@ -147,6 +147,15 @@ func (m *AppPlacementManager) PlaceApplication(app *objects.Application) error {
 				zap.String("application", app.ApplicationID))
 			break
 		}
+		// The recovery queue can never be used by an application that is not forced: the ACL check below refuses
+		// it when the queue exists, refuse it here as well while it does not exist yet.
+		if common.IsRecoveryQueue(queueName) {
+			log.Log(log.SchedApplication).Debug("Rule returned the recovery queue for an application that is not forced",
+				zap.String("ruleName", checkRule.getName()),
+				zap.String("application", app.ApplicationID))
+			queueName = ""
+			continue
+		}
 		// queueName returned make sure ACL allows access and set the queueName in the app
 		queue := m.queueFn(queueName)
 		// walk up the tree if the queue does not exist
